@@ -6,6 +6,7 @@
 
 mod checks;
 mod core;
+mod e5;
 mod fixture;
 mod proj;
 
